@@ -6,4 +6,10 @@ mod leaf;
 #[cfg(kani)]
 mod wrap_deflate;
 #[cfg(kani)]
+mod wrap_inflate;
+#[cfg(kani)]
+mod e_comp;
+#[cfg(kani)]
+mod capi;
+#[cfg(kani)]
 mod gen;
